@@ -343,7 +343,7 @@ async def async_execute(
         # 5.1 dynamic execution of a node
         if not _xn_active_in_call(xn, results):
             logger.debug("Prune {} from the graph", xn.id)
-            results[xn.id] = None
+            # a node that didn't run has no result: it, and every indexed / unpacked part of it, reads as None
             runnable_xns_ids |= graph.remove_root_node(xn.id)
             # if node is starting point of a subgraph, the whole subgraph should be skipped
             # by assigning None to all nodes in the subgraph
